@@ -161,6 +161,55 @@ func (w *World) Structural() []structural {
 		}
 		out = append(out, structural{name, []string{"C08"}, rl.Class != "", detail, w.Fset.Position(loopPos(rl.Head))})
 	}
+	// reports_all: a function that promises to report every violation never leaves a loop early
+	for _, f := range w.repoFuncsSorted() {
+		sp := w.SpecFor(f)
+		if sp == nil || !sp.ReportsAll {
+			continue
+		}
+		var early []string
+		fns := []*ssa.Function{f}
+		fns = append(fns, f.AnonFuncs...)
+		for _, g := range fns {
+			for _, h := range g.Blocks {
+				// h is a loop header if one of its predecessors is dominated by it
+				var latches []*ssa.BasicBlock
+				for _, p := range h.Preds {
+					if h.Dominates(p) {
+						latches = append(latches, p)
+					}
+				}
+				if len(latches) == 0 {
+					continue
+				}
+				// natural loop: blocks that reach a latch without passing through h
+				in := map[*ssa.BasicBlock]bool{h: true}
+				work := append([]*ssa.BasicBlock{}, latches...)
+				for len(work) > 0 {
+					b := work[len(work)-1]
+					work = work[:len(work)-1]
+					if in[b] {
+						continue
+					}
+					in[b] = true
+					work = append(work, b.Preds...)
+				}
+				for b := range in {
+					if b == h {
+						continue
+					}
+					for _, s := range b.Succs {
+						if !in[s] {
+							early = append(early, fmt.Sprintf("%s: block %d leaves the loop at block %d", FuncKey(g), b.Index, h.Index))
+						}
+					}
+				}
+			}
+		}
+		sort.Strings(early)
+		out = append(out, structural{"structural#no-early-exit:" + FuncKey(f), sp.Props, len(early) == 0,
+			fmt.Sprintf("loops of a function that reports every violation must run to completion: %v", early), w.Fset.Position(f.Pos())})
+	}
 	out = append(out, structural{"structural#globals-written-only-in-init", []string{"C08", "C12", "C05", "C11"}, len(globalWrites) == 0, fmt.Sprintf("writes to package-level variables outside init: %v", globalWrites), token.Position{}})
 	return out
 }
